@@ -302,7 +302,7 @@ def push_sequences(world, e, limit=64):
         if x.op == "call" and x.info == "std::vec::Vec::new":
             return [[]]
         if x.op == "rec":
-            return []
+            return [[]]  # loop-carried prefix: unknown earlier elements
         return [[x]]
     return go(e, 0)
 
